@@ -541,6 +541,24 @@ class Prog:
         self.raw_fns = dict(self.fns)
         for p, f in list(self.fns.items()):
             self.fns[p] = inline_calls(self, f, lambda c: c in hs)
+        # a helper's closures are still called from its inlined body: they belong to every function it was inlined into
+        # (transitively), or the scopes built from `closures_of` would lose them
+        callers = {}
+        for p, f in self.raw_fns.items():
+            for b, t in f.calls():
+                c = callee_of(t)
+                if c in hs:
+                    callers.setdefault(c, set()).add(p)
+        changed = True
+        while changed:
+            changed = False
+            for h in helpers:
+                for cl in list(self.closures_of.get(h, [])):
+                    for caller in callers.get(h, ()):
+                        lst = self.closures_of.setdefault(caller, [])
+                        if cl not in lst:
+                            lst.append(cl)
+                            changed = True
         return helpers
 
     def find_fns(self, suffix):
